@@ -159,19 +159,23 @@ TEXT = {
                 "earlier unskipped entry, every matching block-force-pushes rule saw the target descend from it (C11_ff_enforced); with "
                 "the F1 repair the exhaustive verifier only ADDS principals: acceptance implies acceptance by the delegation verifiers "
                 "alone with the same verifier name (C11_exhaustive_adds_only). Monotonicity for one change (Props/C11b: verifyObject_mono, "
-                "verifyPaths_mono, verifyFiles_mono, C11_entry_monotone, every history / policy / attestation state / entry, F1 and F63 "
+                "verifyPaths_mono, verifyFiles_mono, C11_entry_monotone, every history / policy / attestation state / entry, F1 and F64 "
                 "repaired): whatever verifyEntry accepts under a policy that declares global rules it accepts under the same policy "
                 "without them - the Git rule and every file rule of every commit, including the 'already verified with' shortcut between "
                 "the paths of a commit; hypothesis: no rule carries the reserved name of the exhaustive verifier (decidable, noReservedNameB; "
                 "walkSane_of_B by induction over the delegation walk); a kernel-evaluated example shows monotonicity FAILS with F63 "
-                "present. Whole-history monotonicity (C11_monotone_statement) is "
+                "present; F64_witness / F65_witness: kernel-evaluated histories on which the model of the code before the repairs accepts "
+                "what the additive part of the property (c11Globals, now including every changed FILE matched by a global threshold rule) "
+                "forbids, and the repaired variant rejects. Whole-history monotonicity (C11_monotone_statement) is "
                 "checked on the REAL verifier by verifying every generated history under P+G and, on a sibling repository, under P.",
         "note": TB + "On the original tree monotonicity was FALSE (F1: the exhaustive verifier ended the verifier loop, so any global rule "
                 "disabled the delegation rules); the model reproduced it, the violating histories were attributed to F1, and F1 was FIXED in "
                 "/repo (00d1364) - the check now passes with the repaired variant and no KNOWN-FINDING line. A second defect of the same family, "
                 "F63 (the exhaustive verifier served as the 'trusted verifier' of a commit after an unprotected path, so the commit's "
                 "protected paths were not checked once any global rule existed), was found while proving C11_entry_monotone, reproduced on "
-                "the real code and FIXED. Whole-history monotonicity is not a theorem: in the repaired model the fix entry of a recovery is "
+                "the real code and FIXED; F64 (the shortcut skipped the global rules of later paths) and F65 (global rules on file namespaces "
+                "were never evaluated without a delegation file rule) were found the same way, reproduced and FIXED (be4b253, 27fdb63). "
+                "Whole-history monotonicity is not a theorem: in the repaired model the fix entry of a recovery is "
                 "verified under the state in force at the revoked entry, which lets an in-window policy update separate the two runs.",
         "technique": "Lean 4 proof (induction over the global-rule list; case analysis of the verifier loop) + differential/metamorphic correspondence",
     },
